@@ -127,7 +127,11 @@ pub fn op_send(run: &mut Run, cfg: &WCfg, p: &Probe, cell: Option<&Cell>) -> Opt
             let ops = simsock::take_ops();
             let sent = parse_ops(&ops);
             for (k, m) in c11_check(cfg, p, cell, &sent) {
-                run.fail(k, format!("{req} [{m}]"));
+                if k.starts_with("obs-") {
+                    run.count(k);
+                } else {
+                    run.fail(k, format!("{req} [{m}]"));
+                }
             }
             run.count("c11-checked");
             run.op(req, format!("ok {}", ops.join(";")));
